@@ -12,7 +12,8 @@ ID = "C10"
 LEVEL = "exploration"
 TECHNIQUE = "Hypothesis differential between the repository's own implementations: paired creators (CLI assembler vs class-based) and the three v2-capable hashers on the same generated payload"
 RULE = ("Cases: generated tree x piece length x options (private/source/comment); pairs (TorrentAssembler v2, TorrentFileV2) and "
-        "(TorrentAssembler hybrid, TorrentFileHybrid) must yield equal info dictionaries and piece layers (decoded values); per "
+        "(TorrentAssembler hybrid, TorrentFileHybrid), and the interactive front end (InteractiveCreator with its prompts answered by "
+        "the harness) against the CLI creator, must yield equal info dictionaries and piece layers (decoded values); per "
         "non-empty file HasherV2 / HasherHybrid / FileHasher(hybrid on and off) must agree on (root, piece layer) and the two "
         "hybrid-capable ones on (pieces, padding_file). Non-trivial: some file exercising a padding rule (short last block, short "
         "last piece, non-power-of-two piece count, size == P). Distinct = distinct canonical case JSON.")
@@ -63,6 +64,22 @@ def _hash_file(path, P):
     return out
 
 
+def _interactive_create(root, out, P, ver, opts):
+    """Drive interactive.InteractiveCreator by answering its prompts (piece length, trackers, seeds, comment, source, private, path, out, version)."""
+    import builtins
+    import importlib
+    inter = importlib.import_module("torrentfile.interactive")
+    answers = [str(P), "", "", "", opts.get("comment", ""), opts.get("source", ""), "y" if opts.get("private") else "n", root, out, ver]
+    it = iter(answers)
+    real_input = builtins.input
+    builtins.input = lambda *_a: next(it)
+    try:
+        with target.quiet():
+            inter.InteractiveCreator()
+    finally:
+        builtins.input = real_input
+
+
 def run_case(case):
     tree = case["tree"]
     P = case["P"]
@@ -88,7 +105,16 @@ def run_case(case):
                     metas[creator] = common.create(creator, "lib", root, out, P, extra_kw=case["opts"])
         except Exception as e:
             return Outcome(Violation("C10:exception:%s" % type(e).__name__, "create raised %r" % (e,)), True)
-        for a, b, tag in (("Assembler2", "TorrentFileV2", "v2"), ("Assembler3", "TorrentFileHybrid", "hybrid")):
+        # the interactive front end (prompts answered by the harness) must produce the same metafile as the CLI creator
+        try:
+            for ver, key in (("2", "Interactive2"), ("3", "Interactive3")):
+                out = os.path.join(scr, "out", key + ".torrent")
+                _interactive_create(root, out, P, ver, case["opts"])
+                metas[key] = vmeta.Meta.from_file(out)
+        except Exception as e:
+            return Outcome(Violation("C10:interactive-exception:%s" % type(e).__name__, "interactive create raised %r" % (e,)), True)
+        for a, b, tag in (("Assembler2", "TorrentFileV2", "v2"), ("Assembler3", "TorrentFileHybrid", "hybrid"),
+                          ("Assembler2", "Interactive2", "v2-interactive"), ("Assembler3", "Interactive3", "hybrid-interactive")):
             ma, mb = metas[a], metas[b]
             if ma.info != mb.info:
                 diff = sorted(k.decode() for k in set(ma.info) | set(mb.info) if ma.info.get(k) != mb.info.get(k))
